@@ -55,33 +55,33 @@ type Violation struct {
 
 // BatchResult is what a child writes at the end of a batch.
 type BatchResult struct {
-	Batch        int              `json:"batch"`
-	Evaluations  int64            `json:"evaluations"`
-	Counters     map[string]int64 `json:"counters"`
-	Samples      []any            `json:"samples"`
-	Violations   []Violation      `json:"violations"`
-	Inconclusive []string         `json:"inconclusive"`
+	Batch        int                 `json:"batch"`
+	Evaluations  int64               `json:"evaluations"`
+	Counters     map[string]int64    `json:"counters"`
+	Samples      []any               `json:"samples"`
+	Violations   []Violation         `json:"violations"`
+	Inconclusive []string            `json:"inconclusive"`
 	Sets         map[string][]string `json:"sets"`
-	Done         bool             `json:"done"`
+	Done         bool                `json:"done"`
 }
 
 // Ctx is handed to Monitor.Run in the child.
 type Ctx struct {
-	Prop    string
-	Tier    string
-	Seed    int64
-	Batch   int
-	NBatch  int
-	Rng     *rand.Rand
-	Replay  json.RawMessage // non-nil: replay mode, monitor should run only this witness
-	skip    int64
-	caseNo  int64
-	caseLog *os.File
-	res     BatchResult
-	nt      map[uint64]struct{}
-	ntFile  string
-	vseen   map[string]int
-	mu      sync.Mutex
+	Prop       string
+	Tier       string
+	Seed       int64
+	Batch      int
+	NBatch     int
+	Rng        *rand.Rand
+	Replay     json.RawMessage // non-nil: replay mode, monitor should run only this witness
+	skip       int64
+	caseNo     int64
+	caseLog    *os.File
+	res        BatchResult
+	nt         map[uint64]struct{}
+	ntFile     string
+	vseen      map[string]int
+	mu         sync.Mutex
 	maxSamples int
 }
 
@@ -807,4 +807,16 @@ func replayMain(m Monitor, tier, path string) int {
 	}
 	fmt.Println("replay: no violation reproduced")
 	return 0
+}
+
+// NewScratchCtx returns a throw-away context (for minimizers) sharing the parent's identity.
+func NewScratchCtx(c *Ctx) *Ctx {
+	return newCtx(c.Prop, c.Tier, c.Seed, c.Batch, c.NBatch)
+}
+
+// NumViolations reports how many violations were recorded in this context.
+func (c *Ctx) NumViolations() int {
+	c.mu.Lock()
+	defer c.mu.Unlock()
+	return len(c.res.Violations)
 }
